@@ -17,7 +17,9 @@ AWKWARD_NAMES = ['b.x', 'c-y', 'a[0]', 'a[1]', '3w', 'wire', 'always', 'x1', 'x0
                  'a[10]', 'a[9]', 'a[2]', 'v.10', 'v.9',
                  # pairs that differ only in their illegal characters, and plain names that equal
                  # a punctuated one once the punctuation is dropped
-                 'b x', 'c.y', 'a(0)', 'v 9', 'a0', 'bx', 'v10', 'a.b-c']
+                 'b x', 'c.y', 'a(0)', 'v 9', 'a0', 'bx', 'v10', 'a.b-c',
+                 # an ASCII letter first, a letter outside ASCII later
+                 'na\u00efve', 'z\u00e4hler']
 
 COLLIDING_NAME_PAIRS = [('b.x', 'b x'), ('c-y', 'c.y'), ('a[0]', 'a(0)'), ('v.9', 'v 9'),
                         ('a[0]', 'a0'), ('b.x', 'bx'), ('v.10', 'v10'), ('a.b.c', 'a.b-c')]
@@ -402,6 +404,17 @@ class _G(object):
             else:
                 m['rom'] = {'kind': 'func', 'data': [rng.getrandbits(min(bw, 60)) | 1,
                                                      rng.getrandbits(min(bw, 60))], 'pad': False}
+            earlier = [i for i, e in enumerate(self.mems)
+                       if e.get('rom') and e['rom']['kind'] in ('list', 'func') and not e['rom'].get('share_with')
+                       and e['aw'] >= 2]
+            if earlier and cfg.get('share_romdata_prob') and rng.random() < cfg['share_romdata_prob']:
+                # two ROMs of different depth built from ONE table object (a lookup table and a
+                # shorter view of it): what a ROM holds is the object AND the ROM's own shape
+                src = earlier[-1]
+                e = self.mems[src]
+                deeper = (e['rom']['kind'] == 'func' or e['rom'].get('pad')) and rng.random() < 0.6
+                m['bw'], m['aw'] = e['bw'], e['aw'] + (1 if deeper else -1)
+                m['rom'] = dict(e['rom'], share_with=src)
         self.mems.append(m)
         return len(self.mems) - 1
 
